@@ -22,7 +22,8 @@ CASE_TIMEOUT = 60
 RULE = (
     "texts over the alphabet {a,b,space,\\n,\",:,u,s,e,r} built as [prefix?] body [suffix?] [stop tail?] or "
     "unconstrained, x configs prefix in {None,'  \"','Bot message: \"'} suffix in {None,'\"'} stop in {[],['\"\\n'],"
-    "['\\nuser ','\\nUser ']} direct or piped to an outer handler; for texts of <= 11 characters every one of the 2^(n-1) "
+    "['\\nuser ','\\nUser ']} - and, in one case of three, prefix/suffix/stop patterns that are themselves generated over {a,b,\\n} (1-4 "
+    "characters, up to 3 stop sequences in any list order) - direct or piped to an outer handler; for texts of <= 11 characters every one of the 2^(n-1) "
     "chunkings is run, longer texts get 48 sampled chunkings; evaluations counts (text,config) cases, the extra key "
     "chunkings_run counts handler executions. Non-trivial = a pattern (prefix/suffix/stop, whole or a proper piece of "
     "it) occurs inside the body or prefix end and suffix are < 3 characters apart; distinct by (text, config)."
@@ -42,14 +43,19 @@ _counters = {"chunkings_run": 0}
 
 
 def budget(tier):
-    return 700 if tier == "quick" else 12000
+    return 3000 if tier == "quick" else 40000
 
 
 WALL = {"quick": 150, "thorough": 1500}
 
 
+GEN_ALPHA = "ab\n"
+
+
 @st.composite
 def _case(draw):
+    if draw(st.integers(0, 2)) == 0:
+        return draw(_generated_patterns_case())
     prefix = draw(st.sampled_from(PREFIXES))
     suffix = draw(st.sampled_from(SUFFIXES))
     stop = draw(st.sampled_from(STOPS))
@@ -88,6 +94,28 @@ def _case(draw):
     return {"text": text, "prefix": prefix, "suffix": suffix, "stop": stop, "pipe": pipe, "lead_empty": lead_empty, "chunkings": chunkings}
 
 
+@st.composite
+def _generated_patterns_case(draw):
+    """Patterns themselves are generated over a 3-letter alphabet (repeated first characters, stops that are prefixes of
+    each other, several stops in any list order), texts over the same alphabet so that full and partial occurrences abound."""
+    pat = lambda lo, hi: st.text(GEN_ALPHA, min_size=lo, max_size=hi)  # noqa: E731
+    prefix = draw(st.one_of(st.none(), pat(1, 3)))
+    suffix = draw(st.one_of(st.none(), st.none(), pat(1, 2)))
+    stop = draw(st.lists(pat(1, 4), max_size=3, unique=True))
+    parts = []
+    if prefix and draw(st.integers(0, 3)) > 0:
+        parts.append(prefix)
+    parts.append(draw(st.text(GEN_ALPHA, max_size=6)))
+    for sseq in draw(st.permutations(stop)):
+        if draw(st.booleans()):
+            parts.append(sseq)
+            parts.append(draw(st.text(GEN_ALPHA, max_size=2)))
+    if suffix and draw(st.booleans()):
+        parts.append(suffix)
+    text = "".join(parts)[:11]
+    return {"text": text, "prefix": prefix, "suffix": suffix, "stop": stop, "pipe": draw(st.booleans()), "lead_empty": draw(st.booleans()), "chunkings": "all", "gen_patterns": True}
+
+
 def strategy(tier):
     return _case()
 
@@ -103,25 +131,29 @@ def enumerate_cases(tier):
                         yield {"text": t, "prefix": p, "suffix": s, "stop": stp, "pipe": pipe, "lead_empty": False, "chunkings": "all"}
 
 
+def _cuts(t, stop):
+    """All defensible results of 'cut at the first stop sequence': by earliest start and by earliest end of an occurrence
+    (overlapping stop sequences that complete at the same character make 'first' ambiguous)."""
+    occ = [(t.find(s), t.find(s) + len(s)) for s in stop if s and t.find(s) >= 0]
+    if not occ:
+        return {t}
+    first_start = min(o[0] for o in occ)
+    first_end = min(o[1] for o in occ)
+    return {t[:first_start]} | {t[: o[0]] for o in occ if o[1] == first_end}
+
+
 def ref(text, prefix, suffix, stop):
-    """Reference: returns (expected, ambiguous)."""
-    t = text
-    if prefix and t.startswith(prefix):
-        t = t[len(prefix):]
-    cut = None
-    for s in stop:
-        i = t.find(s)
-        if i >= 0 and (cut is None or i < cut):
-            cut = i
-    if cut is not None:
-        stop_first = t[:cut]
-        # reading 2: the suffix is removed from the end of the whole text before the cut is considered
-        ambiguous = bool(suffix) and stop_first.endswith(suffix)
-        return stop_first, ambiguous
-    if suffix and t.endswith(suffix):
-        # a stop sequence that only appears once the suffix is kept/removed -> both readings coincide here
-        return t[: -len(suffix)], False
-    return t, False
+    """Reference: returns (expected, ambiguous). Reading 1 = remove the prefix, cut at the first stop sequence, remove the
+    suffix from what is left; reading 2 = remove prefix and suffix from the whole text, then cut. The statement does not say
+    which; where the readings (or the notion of 'first' for overlapping stop sequences) differ the case is ambiguous and only
+    chunking-independence and completion==delivered are asserted."""
+    t = text[len(prefix):] if prefix and text.startswith(prefix) else text
+    results = set()
+    for r1 in _cuts(t, stop):
+        results.add(r1[: -len(suffix)] if suffix and r1.endswith(suffix) else r1)
+    t2 = t[: -len(suffix)] if suffix and t.endswith(suffix) else t
+    results |= _cuts(t2, stop)
+    return sorted(results)[0], len(results) > 1
 
 
 def _split(text, cuts):
@@ -227,6 +259,10 @@ def prop(case):
     ]
     if ambiguous:
         labels.append("ambiguous-suffix-vs-stop")
+    if case.get("gen_patterns"):
+        labels.append("generated-patterns")
+        if len(stop) >= 2:
+            labels.append("several-stops")
     nt = _nontrivial(text, prefix, suffix, stop)
     view = {"text": text, "prefix": prefix, "suffix": suffix, "stop": stop, "pipe": case["pipe"], "chunkings": len(cuts_list), "delivered": expected}
     return ok(nt=nt, labels=labels, view=view, key=None, counters={"chunkings_run": len(cuts_list)})
